@@ -1,6 +1,6 @@
 module verifh
 
-go 1.19
+go 1.21
 
 require (
 	github.com/GuanceCloud/platypus v0.0.0
